@@ -88,8 +88,8 @@ class TwoPortStub(Module):
         self.wacc, self.racc = wacc, racc
 
 
-def fifo_bench(name, with_bypass=False, nwords=4, data_width=8, port_dw=8, pre=2, post=2, bit=None):
-    from litedram.frontend.fifo import LiteDRAMFIFO
+def fifo_bench(name, with_bypass=False, nwords=4, data_width=8, port_dw=8, pre=2, post=2, bit=None, core_only=None):
+    from litedram.frontend.fifo import LiteDRAMFIFO, _LiteDRAMFIFO
     aw = 4
     wp = LiteDRAMNativePort("write", aw, port_dw)
     rp = LiteDRAMNativePort("read", aw, port_dw)
@@ -97,8 +97,14 @@ def fifo_bench(name, with_bypass=False, nwords=4, data_width=8, port_dw=8, pre=2
     class Top(Module):
         pass
     top = Top()
-    top.submodules.dut = dut = LiteDRAMFIFO(data_width=data_width, base=0, depth=nwords * (port_dw // 8), write_port=wp, read_port=rp,
-                                            with_bypass=with_bypass, pre_fifo_depth=pre, post_fifo_depth=post)
+    if core_only:
+        # the DRAM FIFO proper (pointers, level gating, DMA engines) with small DMA FIFOs
+        dut = _LiteDRAMFIFO(data_width=port_dw, base=0, depth=nwords, write_port=wp, read_port=rp,
+                            writer_fifo_depth=core_only, reader_fifo_depth=core_only)
+    else:
+        dut = LiteDRAMFIFO(data_width=data_width, base=0, depth=nwords * (port_dw // 8), write_port=wp, read_port=rp,
+                           with_bypass=with_bypass, pre_fifo_depth=pre, post_fifo_depth=post)
+    top.submodules.dut = dut
     B = Signal(max=data_width, name_override="BITSEL")
     # position of the watched bit inside the port word: the same lane of the first narrow word (ratio 1 in these benches)
     top.submodules.stub = stub = TwoPortStub(wp, rp, B, nwords)
@@ -150,8 +156,10 @@ def fifo_bench(name, with_bypass=False, nwords=4, data_width=8, port_dw=8, pre=2
 
 
 CONFIGS = {
-    "nobypass_4words_bit0": (dict(with_bypass=False, bit=0), 26, 44, "qt"),
-    "bypass_4words_bit0": (dict(with_bypass=True, bit=0), 26, 44, "qt"),
+    "core_4words_dma2_bit0": (dict(core_only=2, bit=0), 26, 40, "qt"),
+    "core_2words_dma2_bit5": (dict(core_only=2, nwords=2, bit=5), 24, 40, "qt"),
+    "nobypass_4words_bit0": (dict(with_bypass=False, bit=0), 0, 30, "t"),
+    "bypass_4words_bit0": (dict(with_bypass=True, bit=0), 0, 30, "t"),
     "nobypass_4words": (dict(with_bypass=False), 0, 36, "t"),
     "bypass_4words_bit7": (dict(with_bypass=True, bit=7), 0, 40, "t"),
     "nobypass_2words_bit3": (dict(with_bypass=False, nwords=2, bit=3), 0, 40, "t"),
@@ -168,7 +176,7 @@ def run(ctx):
         if ctx.only and not ctx.only.search(n):
             continue
         if ctx.tier == "quick" and "q" in tiers:
-            ctx.add(n, kq, timeout=1200, cover_required=False, min_K=16, chunk=5)
+            ctx.add(n, kq, timeout=1200, cover_required=False, min_K=18, chunk=4)
         elif ctx.tier == "thorough":
-            ctx.add(n, kt, timeout=3000, cover_required=False, min_K=kq or 20, chunk=4)
+            ctx.add(n, kt, timeout=3000, cover_required=False, min_K=min(kq or 14, 14), chunk=4)
     ctx.run()
